@@ -163,6 +163,18 @@ CHECKS = {
         note="Terminal listings are judged for names without line breaks (tag log is the program channel); pool is not judged when a "
              "sub-path is a file on one disk and a directory on another.",
         design="DESIGN.md section 4, C20"),
+    "C15": dict(
+        category="exploration",
+        technique="property-based testing (Hypothesis) under a harness-owned clock (LD_PRELOAD shim); selection observed in the syscall trace and judged by a validity predicate; books predicted from the bytes on disk",
+        engine="hypothesis-cli",
+        text="Generated rounds (sync, scrub plans, silent corruption, fix -e, file changes) under a controlled clock shape the "
+             "per-stripe check times and marks; a final scrub with a generated plan/percentage/age at a generated 'now' must read "
+             "(parity reads in the trace) a set of stripes satisfying the plan predicate (bad always; full/new/bad exact; percentage: "
+             "share, age limit, oldest first, quota used), and must update the info words exactly as the stripe's actual bytes demand "
+             "(verified correct -> time=now, flags cleared; silent error -> bad; mismatch explained by a changed file / pending block "
+             "-> untouched), leaving data and parity unchanged; repeated percentage scrubs with an advancing clock cover every stripe.",
+        note="Non-split parity only; hash size >= 8; 'eventually' is checked as a bounded number of rounds.",
+        design="DESIGN.md section 4, C15"),
 }
 
 NOT_YET = "check not built yet at this commit (planned in DESIGN.md section 4); not claimed until it runs"
